@@ -59,11 +59,12 @@ void RETURNStatement::unparse(Context& ctx, FILE * out) const
 RETURNStatement * RETURNStatement::parse(Parser& p, Context& ctx)
 {
   RETURNStatement * s = new RETURNStatement();
-  TokenPtr t = p.front();
-  if (t->code == Parser::Separator)
-    return s;
   try
   {
+    /* reading the next token throws at end of input */
+    TokenPtr t = p.front();
+    if (t->code == Parser::Separator)
+      return s;
     s->_exp = ParseExpression::expression(p, ctx);
     return s;
   }
